@@ -158,6 +158,15 @@ func runC06(p *core.Program, r *core.Report) {
 	// a separator function made by the factory reports the entropy of the very generation that
 	// produced the separator (= C16 R16.3 factory rule; a pre-computed figure is wrong when that generation fails)
 	r.Borrow("R6.2", func() { checkSeparatorFactories(p, r) })
+	// Generate and Entropy() agree on which separator applies: the function whenever it is not nil, called per gap (= C04 R4.3 re-run)
+	if g, why := resolveWLGen(p); g == nil {
+		r.Unrecognised("R6.2", "(spg.WLRecipe).Generate", "generation shape", "", why)
+	} else {
+		r.Borrow("R6.2", func() { checkSeparatorPerGap(p, r, g, "R4.3") })
+	}
+	// the shipped lists hold no empty and no duplicate entry (an empty word is dropped from the password but counted
+	// in log2(Size); = C16 R16.5 re-run)
+	borrowSelected(p, r, runC16, "R6.5", func(o core.Obligation) bool { return o.Rule == "R16.5" })
 }
 
 // checkDrawTermAgreement: schemes with a bonus in Entropy == schemes that draw in Generate, with matching bounds.
@@ -299,7 +308,7 @@ func checkCharEntropy(p *core.Program, r *core.Report) {
 			if !isCall || !isC || k != 0 || len(sc.Call.Args) != 1 {
 				continue
 			}
-			if ref, okP := core.LoadPath(sc.Call.Args[0]); !okP || ref.Path != ".requiredSets" || ref.Root != ssa.Value(al) {
+			if ref, okP := core.LoadPath(sc.Call.Args[0]); !okP || ref.Path != "."+requiredSetsField(p) || ref.Root != ssa.Value(al) {
 				continue
 			}
 			if f := core.StaticCallee(sc); f == nil || !p.InLib(f) {
@@ -315,7 +324,7 @@ func checkCharEntropy(p *core.Program, r *core.Report) {
 		// the same test spelled as a search: a sweep over the required sets that
 		// leaves for the counting path at the first non-empty one, the simple term after it
 		if !reqEmpty && !reqNonEmpty {
-			reqEmpty, reqNonEmpty = anyRequiredSetNonEmpty(ent, al, ret.Block())
+			reqEmpty, reqNonEmpty = anyRequiredSetNonEmpty(p, ent, al, ret.Block())
 		}
 		if isEntropySimpleCall(p, c) {
 			nSimple++
@@ -347,13 +356,13 @@ func checkCharEntropy(p *core.Program, r *core.Report) {
 //
 // and reports whether block `at` is known to run with all required sets empty
 // (after the complete sweep) or with a non-empty one (inside the test).
-func anyRequiredSetNonEmpty(fn *ssa.Function, recv *ssa.Alloc, at *ssa.BasicBlock) (allEmpty, someNonEmpty bool) {
+func anyRequiredSetNonEmpty(p *core.Program, fn *ssa.Function, recv *ssa.Alloc, at *ssa.BasicBlock) (allEmpty, someNonEmpty bool) {
 	for _, l := range core.Loops(fn) {
 		ri, ok := core.AsRange(l)
 		if !ok || ri.Kind != "slice" {
 			continue
 		}
-		if ref, okP := core.LoadPath(ri.X); !okP || ref.Path != ".requiredSets" || ref.Root != ssa.Value(recv) {
+		if ref, okP := core.LoadPath(ri.X); !okP || ref.Path != "."+requiredSetsField(p) || ref.Root != ssa.Value(recv) {
 			continue
 		}
 		// the blocks leaving the loop other than through the header's exit are
